@@ -2454,6 +2454,19 @@ class BDD(dd._abc.BDD[_Ref]):
         n = len(var2level)
         level_map = dict()
         # level_map[n] = len(self.vars)
+        #
+        # check all levels before declaring
+        # any variable, so that a conflict
+        # leaves the variable order unchanged
+        for var, i in var2level.items():
+            if not (0 <= i < n):
+                raise AssertionError((i, n))
+            if not levels:
+                continue
+            if var in self.vars:
+                self._check_var(var, i)
+            else:
+                self._next_free_level(var, i)
         for var, i in var2level.items():
             if not (0 <= i < n):
                 raise AssertionError((i, n))
